@@ -9,4 +9,5 @@ echo "--- demo with the change:"; (cd /tmp && PYTHONPATH=/repo/src timeout 300 /
 if [ $# -gt 0 ]; then echo "--- tests with the change:"; (cd /repo && timeout 1800 /venv/bin/python -m pytest -q -p no:cacheprovider "$@" 2>&1 | tail -2); fi
 echo "--- check $P with the change:"; timeout 1200 ./check "$P" > /tmp/seed_check.out 2>&1; echo "check exit=$?"; grep -v "^  " /tmp/seed_check.out | tail -4 | cut -c1-300
 git -C /repo checkout -- . ; git -C /repo status --short
+git -C /verif checkout -- "evidence/$P.json" 2>/dev/null  # the evidence of a run on a changed tree is not kept
 echo "--- demo on the clean tree:"; (cd /tmp && PYTHONPATH=/repo/src timeout 300 /venv/bin/python "$D/demo.py" $DEMO_ARGS > /tmp/seed_demo2.out 2>&1; echo "demo exit=$?")
